@@ -6,7 +6,7 @@ import ast
 from sa.astx import dotted, src
 from sa.selftest import Mutant, Silent
 from sa.source import AnalysisError
-from sa.props._lib_a import (inlined_func, DEFER, Q, CallGraph, ICModel, group, aliases, attr_of, avoiding_path, call_nodes, calls_of, catching_handlers,
+from sa.props._lib_a import (inlined_func, const_int as const_int_, DEFER, Q, CallGraph, ICModel, group, aliases, attr_of, avoiding_path, call_nodes, calls_of, catching_handlers,
                              exc_escape, handler_catches_all, handler_names, is_const,
                              is_name, known_bool, method_call, name_assign_nodes, no_exc, params, passes_between, stmt_nodes,
                              sub0, targets_values)
@@ -127,7 +127,8 @@ def check(ctx):
                               f"the value passed to the result Deferred is not taken from the exception's .value on every path (variable {V.id})",
                               witness=g.describe(wit))
                 others = [d for d in name_assign_nodes(g, V.id) if not any(
-                    is_name(t, V.id) and v is not None and (is_const(v, None) or any(_value_of(v, g.node(h).ast.name) for h in stop_h))
+                    is_name(t, V.id) and v is not None and (isinstance(v, ast.Constant) or (isinstance(v, (ast.Name, ast.Attribute)) and (dotted(v) or "").split(".")[0] not in M.local_names)
+                                                        or any(_value_of(v, g.node(h).ast.name) for h in stop_h))
                     for t, v in targets_values(g.node(d).ast))]
                 ctx.check(not others, "return-value/flow", cons + " (other definitions)", f"{V.id} is also assigned from something that is not the generator's return value")
         for h in sorted(stop_h):
@@ -229,20 +230,35 @@ def check(ctx):
     with group(ctx, "driver/sync-outcome"):
         _need_protocol(M)
         # a synchronously delivered outcome is read before the slot is reset
-        reads = stmt_nodes(g, lambda st: any(is_name(t, res) and v is not None and sub0(v, W, 1) for t, v in targets_values(st)))
-        resets = stmt_nodes(g, lambda st: any(sub0(t, W, 1) for t, _ in targets_values(st)))
-        delivered = [d for t in M.cell_tests for d, l in g.succ[t] if l == "F"]
+        # the slot of the cell list in which the helper leaves the outcome (index 1 of [flag, outcome], or the one-slot cell itself)
+        slots = set()
+        for hname, (H, k) in M.helpers.items():
+            hp_ = params(H)
+            if len(hp_) > k:
+                for st_ in ast.walk(H):
+                    if isinstance(st_, (ast.Assign, ast.AnnAssign)):
+                        for t, v in targets_values(st_):
+                            if isinstance(t, ast.Subscript) and isinstance(t.value, ast.Name) and t.value.id in aliases(H, hp_[k]) and is_name(v) \
+                                    and v.id in aliases(H, hp_[0]) and isinstance(t.slice, ast.Constant):
+                                slots.add(t.slice.value)
+        slot = sorted(slots)[0] if len(slots) == 1 else 1
+        reads = stmt_nodes(g, lambda st: any(is_name(t, res) and v is not None and sub0(v, W, slot) for t, v in targets_values(st)))
+        resets = stmt_nodes(g, lambda st: any(sub0(t, W, slot) for t, _ in targets_values(st)))
+        # edges of the loop's cell tests that are taken only when the helper has already run (the cell no longer holds its armed value)
+        armed = {c for r in M.regs for (c, p_, f_) in M.at(r)}
+        delivered = [d for t in M.cell_tests for d, l in g.succ[t] if l in ("T", "F") and armed and
+                     all(M.cell_test(g.node(t).ast, c, M.is_cell_read, M.local_names) is (l != "T") for c in armed)]
         wit = avoiding_path(g, delivered, M.resumes, reads, strict=False) if delivered else None
-        ctx.check(bool(reads) and bool(delivered) and wit is None, "await/sync-outcome-read", q + f" | {res} = {W}[1]",
+        ctx.check(bool(reads) and bool(delivered) and wit is None, "await/sync-outcome-read", q + f" | {res} = {W}[{slot}]",
                   "after an already-fired Deferred the generator is resumed without the delivered outcome", witness=g.describe(wit))
-        ctx.check(not passes_between(g, delivered, resets, reads, stop=M.resumes), "await/sync-outcome-read-before-reset", q + f" | {res} = {W}[1]",
+        ctx.check(not passes_between(g, delivered, resets, reads, stop=M.resumes), "await/sync-outcome-read-before-reset", q + f" | {res} = {W}[{slot}]",
                   "waiting[1] is reset before the delivered outcome is read from it: the generator receives None")
         for hname, (H, k) in sorted(M.helpers.items()):
             hp = params(H)
             hstores = [st for st in ast.walk(H) if isinstance(st, (ast.Assign, ast.AnnAssign)) and any(
-                isinstance(t, ast.Subscript) and isinstance(t.value, ast.Name) and len(hp) > k and t.value.id in aliases(H, hp[k]) and sub0(t, t.value.id, 1)
+                isinstance(t, ast.Subscript) and isinstance(t.value, ast.Name) and len(hp) > k and t.value.id in aliases(H, hp[k]) and isinstance(t.slice, ast.Constant)
                 and is_name(v) and v.id in aliases(H, hp[0]) for t, v in targets_values(st))]
-            ctx.check(bool(hstores), "await/sync-outcome-read", Q + hname, "the helper does not leave the outcome in waiting[1]")
+            ctx.check(bool(hstores), "await/sync-outcome-read", Q + hname, "the helper does not leave the outcome in the cell list")
 
     # ---- suspension records the awaited Deferred ------------------------------------------------------
     with group(ctx, "driver/cancel-target"):
@@ -332,14 +348,38 @@ def check(ctx):
         exts = call_nodes(ag, lambda c: isinstance(c.func, ast.Attribute) and c.func.attr == "extend" and is_it_cbs(c.func.value) and len(c.args) == 1
                           and is_name(c.args[0]) and c.args[0].id in saved)
         ebs = call_nodes(ag, lambda c: isinstance(c.func, ast.Attribute) and c.func.attr == "errback" and isinstance(c.func.value, ast.Name) and c.func.value.id in its)
-        for nodes, what in ((empties, "emptying it.callbacks"), (save_nodes, "saving the old callbacks"), (adds, "addErrback(_handleCancelInlineCallbacks, status)"),
-                            (exts, "re-attaching the old callbacks"), (ebs, "errback(_InternalInlineCallbacksCancelledError())")):
+        # second idiom for "the handler goes first": add it at the end, then rotate the last entry to the front
+        def is_rotation(st):
+            for t, v in targets_values(st):
+                if is_it_cbs(t) and isinstance(v, ast.BinOp) and isinstance(v.op, ast.Add):
+                    def sl(e, lo, up):
+                        return isinstance(e, ast.Subscript) and is_it_cbs(e.value) and isinstance(e.slice, ast.Slice) and e.slice.step is None \
+                            and ((e.slice.lower is None) if lo is None else const_int_(e.slice.lower) == lo) \
+                            and ((e.slice.upper is None) if up is None else const_int_(e.slice.upper) == up)
+                    if sl(v.left, -1, None) and sl(v.right, None, -1):
+                        return True
+            return False
+        rotations = stmt_nodes(ag, is_rotation)
+        if rotations and not empties:
+            for nodes, what in ((adds, "addErrback(_handleCancelInlineCallbacks, status)"), (rotations, "moving the new last entry to the front"),
+                                (ebs, "errback(_InternalInlineCallbacksCancelledError())")):
+                wit = avoiding_path(ag, [ag.entry], [ag.exit], nodes)
+                ctx.check(bool(nodes) and wit is None, "cancel-hook/steps-present", f"{aq} | {what}", f"step missing on some path: {what}", witness=ag.describe(wit))
+            for r_ in rotations:
+                # nothing else may be appended between adding the handler and rotating (the last entry must be the handler)
+                appenders = call_nodes(ag, lambda c: isinstance(c.func, ast.Attribute) and c.func.attr in ("addCallback", "addBoth", "addCallbacks", "append", "extend", "insert"))
+                between = [x for x in appenders if x not in adds and any(ag.path([a], [x], strict=True) for a in adds) and ag.path([x], [r_], strict=True)]
+                ok_order = all(ag.must_precede([a], [r_]) is None for a in adds) and all(ag.must_precede([r_], [e]) is None for e in ebs) and not between
+                ctx.check(ok_order and len(adds) == 1, "cancel-hook/handler-first", ctx.construct(aq, ag.node(r_).ast),
+                          "the entry rotated to the front is not the cancel handler that was just added (or the rotation comes after the error is injected)")
+        for nodes, what in (() if (rotations and not empties) else ((empties, "emptying it.callbacks"), (save_nodes, "saving the old callbacks"), (adds, "addErrback(_handleCancelInlineCallbacks, status)"),
+                            (exts, "re-attaching the old callbacks"), (ebs, "errback(_InternalInlineCallbacksCancelledError())"))):
             wit = avoiding_path(ag, [ag.entry], [ag.exit], nodes)
             ctx.check(bool(nodes) and wit is None, "cancel-hook/steps-present", f"{aq} | {what}", f"step missing on some path: {what}", witness=ag.describe(wit))
         for a in adds:
             c = calls_of(ag, a, lambda c: isinstance(c.func, ast.Attribute) and c.func.attr == "addErrback")[0]
             ctx.check(len(c.args) == 2 and is_name(c.args[1], a_status), "cancel-hook/handler-gets-status", ctx.construct(aq, c), "the handler is not given this run's status")
-            wit = ag.must_precede(empties, [a]) if empties else [ag.entry, a]
+            wit = None if (rotations and not empties) else (ag.must_precede(empties, [a]) if empties else [ag.entry, a])
             ctx.check(wit is None, "cancel-hook/handler-first", ctx.construct(aq, c),
                       "the cancel handler is added while the user's callbacks are still in the list: they would see the internal cancellation error first",
                       witness=ag.describe(wit))
